@@ -5,6 +5,8 @@
 //
 // Case JSON:
 //   chdir:  absolute directory the child runs in (relative top-level / include paths resolve there)
+//   param_order: [setter names]  CompilerParams builder methods applied in this order (default values;
+//           disable_includes(true) in "disabled" mode)
 //   mode:   "fs" | "callback" | "disabled"      use_cb: true = set the callback also in "disabled" mode
 //   cb:     [{"name": s, "cur_any": bool, "cur": null|s, "ns": null|s, "text": null|s}]  callback table,
 //           first entry with matching name / current path / namespace decides; no entry or text=null: Err
@@ -59,7 +61,9 @@ fn session(case: &Value, which: &str) -> Value {
     let log: Arc<Mutex<Vec<Value>>> = Arc::new(Mutex::new(Vec::new()));
     if which == "impl" {
         if mode == "disabled" {
-            c.set_params(CompilerParams::default().disable_includes(true));
+            if !case["param_order"].is_array() {
+                c.set_params(CompilerParams::default().disable_includes(true));
+            }
         }
         if mode == "callback" || get_bool(case, "use_cb") {
             let tbl: Vec<Value> = case["cb"].as_array().cloned().unwrap_or_default();
@@ -86,6 +90,27 @@ fn session(case: &Value, which: &str) -> Value {
                 }
                 Err(std::io::Error::new(std::io::ErrorKind::NotFound, "not in table"))
             });
+        }
+    }
+    // compiler parameters set through the builder methods in a given ORDER (values are the defaults, except
+    // disable_includes in "disabled" mode): the order must not matter
+    if which == "impl" {
+        if let Some(order) = case["param_order"].as_array() {
+            let mut p = CompilerParams::default();
+            for name in order {
+                p = match name.as_str().unwrap_or("") {
+                    "disable_includes" => p.disable_includes(mode == "disabled"),
+                    "parse_expression_recursion_limit" => p.parse_expression_recursion_limit(50),
+                    "parse_string_recursion_limit" => p.parse_string_recursion_limit(30),
+                    "max_condition_depth" => p.max_condition_depth(40),
+                    "fail_on_warnings" => p.fail_on_warnings(false),
+                    "compute_statistics" => p.compute_statistics(true),
+                    "max_strings_per_rule" => p.max_strings_per_rule(10_000),
+                    "disable_unknown_escape_warning" => p.disable_unknown_escape_warning(false),
+                    other => panic!("unknown parameter setter {other}"),
+                };
+            }
+            c.set_params(p);
         }
     }
     let calls = if which == "impl" { &case["calls"] } else { &case["inline_calls"] };
